@@ -152,6 +152,12 @@ class Issuer:
                         if v.kind == "agg" and v.d["agg"].get("variant") == "Array":
                             self.obj_builder = fn
                             self.sd_insert = (b, n)
+                        elif v.kind == "call" and v.d["term"].get("name") in ("from", "into", "from_iter", "collect") and not v.d["term"].get("resolved_local") and v.kids \
+                                and any("std::vec::Vec<std::string::String>" in (g_ or "") for g_ in [v.d["term"].get("self_ty")] + list(v.d["term"].get("gargs") or []) + [fn.local_ty((((v.d["term"].get("args") or [{}])[0].get("move") or (v.d["term"].get("args") or [{}])[0].get("copy") or {}).get("local")) or 0) if (v.d["term"].get("args")) else ""]):
+                            # `Value::from(digests)` / `digests.into()`: the conversion of a Vec<String> into a JSON array
+                            self.obj_builder = fn
+                            self.sd_insert = (b, n)
+                            self._sd_conv = v
         # list builder: wraps digests as {"...": h}
         self.list_builder = None
         for fn in self.fns:
@@ -170,6 +176,8 @@ class Issuer:
         for x in walk(n.kids[2]):
             if x.kind == "call" and x.d["term"].get("name") == "into_iter" and (x.d["term"].get("self_ty") or "").startswith("std::vec::Vec<std::string::String>"):
                 self.sd_vec = receiver_local(fn, x.d["bb"], 0)
+        if self.sd_vec is None and getattr(self, "_sd_conv", None) is not None and self._sd_conv.d.get("bb") is not None:
+            self.sd_vec = receiver_local(fn, self._sd_conv.d["bb"], 0)
         if self.sd_vec is None:
             ctx.missing(rule, "_sd vector", "cannot identify the local vector that becomes the `_sd` array")
             return
